@@ -3,6 +3,7 @@
 from __future__ import annotations
 
 import copy
+import json
 import pickle
 import zlib
 
@@ -155,7 +156,7 @@ class _XOp:
         return True
 
 
-def check_case(cell, elems, ctx):
+def check_case(cell, elems, ctx, poison=None):
     if cell["op"] == "__extra__":
         name = cell["extra_call"]
         call = EXTRA[name][1]
@@ -169,7 +170,16 @@ def check_case(cell, elems, ctx):
                 e["s"]["order"] = elems[0]["s"]["order"]
         cfg = cell
         opname = op.name
+    if poison is None and not cell.get("ints"):
+        # the same call again with NaN / inf among the stored coordinates of the first, then of the second operand (missing-data
+        # markers, results of singular earlier steps): still nothing may be written to an operand
+        h = zlib.crc32(("poison" + cell["id"]).encode())
+        for which in ("a", "b") if cell.get("db") else ("a",):
+            cells_ = [[i_, (h >> (3 * i_)) % 4, ("nan", "inf", "nan", "-inf")[(h >> (2 * i_ + 5)) % 4]] for i_ in range(0, 6, 2)]
+            check_case(cell, [json.loads(json.dumps(e)) for e in elems], ctx, poison={"which": which, "cells": cells_})
     snaps = {}
+    if poison is not None:
+        cfg = dict(cfg, poison=poison)
 
     def before(o):
         snaps["A"] = snapshot.snap(o.A)
@@ -177,6 +187,8 @@ def check_case(cell, elems, ctx):
         snaps["sc"] = snapshot.snap(o.sc)
 
     try:
+        if cell["op"] == "__extra__":
+            OPS["__extra__"] = _XOp(cell["extra_call"], cell["da"])
         o = lattice.evaluate(cfg, elems, want_ref=False, before=before)
     finally:
         OPS.pop("__extra__", None)
